@@ -47,7 +47,8 @@ def sequence(kind, n, rng):
     raise ValueError(kind)
 
 
-def channels(ctx, fmt, n, seed, sw, other_bits, start_ms=None, third_const=None, want_reader=False, flagged=None, first_sw=None):
+def channels(ctx, fmt, n, seed, sw, other_bits, start_ms=None, third_const=None, want_reader=False, flagged=None, first_sw=None,
+             line_numbers=None):
     if first_sw is not None:
         # the reader object has ALREADY read and calibrated another file of the same pass (same lines, times, flags and
         # counts, another channel-select sequence) before it reads this one: a batch job re-using one configured reader
@@ -66,7 +67,7 @@ def channels(ctx, fmt, n, seed, sw, other_bits, start_ms=None, third_const=None,
         r.get_calibrated_channels()
         r.read(pb1.dsname, fileobj=io.BytesIO(d1))
         return np.array(r.get_calibrated_channels()), pb1
-    pb = filegen.PassBuilder(ctx, fmt, n, random.Random(repr((seed, fmt, n))), start_ms=start_ms)
+    pb = filegen.PassBuilder(ctx, fmt, n, random.Random(repr((seed, fmt, n))), start_ms=start_ms, line_numbers=line_numbers)
     if flagged is not None:
         pb.quality[np.asarray(flagged, dtype=bool)] = 1 << 28       # insufficient calibration data: the line is blanked
     pb.samples[:, 2::5] = pb.nprng.integers(60, 1000, size=pb.samples[:, 2::5].shape)
@@ -145,14 +146,25 @@ def check_klm(ctx, fmt, n, kind, seed, drv, start_ms=None):
     flagged = np.zeros(n, dtype=bool)
     if seed % 2 == 1 and n > 3 and start_ms is None:      # (inside a scan-motor interval a blanked line changes its neighbours' 3x3 statistics)
         flagged[rng.randrange(n)] = True
+    # on some passes two neighbouring records are stored in the wrong order (their numbers say so), right where the select
+    # value changes: every product row is still the row of THAT record
+    line_numbers = None
+    if seed % 4 == 2 and start_ms is None and n >= 6:
+        ln = np.arange(1, n + 1)
+        cands = [i for i in range(1, n - 2) if sw[i] != sw[i + 1]] or [n // 2]
+        for i in rng.sample(cands, min(2, len(cands))):
+            if ln[i] < ln[i + 1]:
+                ln[i], ln[i + 1] = ln[i + 1], ln[i]
+        line_numbers = ln
     first_sw = None
-    if seed % 3 == 0 and start_ms is None:
+    if seed % 3 == 0 and start_ms is None and line_numbers is None:
         first_sw = rng.choice([sw[::-1].copy(), np.ones(n, dtype=int), np.zeros(n, dtype=int), (sw + 1) % 3])
-    ch, pb = channels(ctx, fmt, n, seed, sw, other, start_ms, flagged=flagged, first_sw=first_sw)
-    ref_a, _ = channels(ctx, fmt, n, seed, np.ones(n, dtype=int), other, start_ms)
-    ref_b, _ = channels(ctx, fmt, n, seed, np.zeros(n, dtype=int), other, start_ms)
+    ch, pb = channels(ctx, fmt, n, seed, sw, other, start_ms, flagged=flagged, first_sw=first_sw, line_numbers=line_numbers)
+    ref_a, _ = channels(ctx, fmt, n, seed, np.ones(n, dtype=int), other, start_ms, line_numbers=line_numbers)
+    ref_b, _ = channels(ctx, fmt, n, seed, np.zeros(n, dtype=int), other, start_ms, line_numbers=line_numbers)
     payload = {"fmt": fmt, "n": n, "kind": kind, "seed": seed, "select": sw.tolist(), "start_ms": start_ms,
-               "reader_read_before_with_select": None if first_sw is None else np.asarray(first_sw).tolist()}
+               "reader_read_before_with_select": None if first_sw is None else np.asarray(first_sw).tolist(),
+               "line_numbers": None if line_numbers is None else line_numbers.tolist()}
     if ch.shape[-1] != 6:
         ctx.violation("%s: %d channel slots instead of 6" % (fmt, ch.shape[-1]), payload, cls="klm-slots")
         return
